@@ -220,10 +220,16 @@ std::string World::seal(const EndpointCfg &ep, bool response, const std::vector<
 		for (auto &p : payload) {
 			if (p.tag == 0x02) { pl = p; pl.tag = base + 2; have = true; }
 			else if (p.tag == 0x03) { pl = p; pl.tag = base + 3; have = true; }
-			else if (p.tag == 0x04) { conf = p; conf.tag = 0x10; have_conf = true; }
+			else if (p.tag == 0x04) {
+				conf = p; conf.tag = 0x10; have_conf = true;
+				// the version-1 configuration record knows max level, algorithm, period and (as 0x04) parent URIs only
+				std::vector<Tlv> keep;
+				for (auto &k : conf.kids) if (k.tag >= 0x01 && k.tag <= 0x03) keep.push_back(k);
+				conf.kids = keep;
+			}
 		}
 		if (!have) { pl = Tlv::nest(base + 2, {Tlv::u64(0x01, 0), Tlv::u64(0x04, 0)}); }
-		if (have_conf && (pl.tag & 0xff) == 2) {
+		if (have_conf && (pl.tag & 0xff) == 2 && !ep.extender) { // the version-1 extender response has no configuration field
 			// v1 templates differ (KSI_Config: 0x01..0x04 / extender: none); keep the aggregator fields that exist in v1
 			pl.add(conf);
 		}
